@@ -37,7 +37,15 @@ def wake_race(ctx):
     qd = lib.run_go(ctx, "multiplex", "TestVerifC03Queued", timeout=900, tag="queued")
     lib.collect_go(ctx, qd)
     ctx.log("queued / stalled sender scenarios: %d, %d violations, %d unjudged" % (qd["evaluations"], len(qd.get("violations", [])), qd["stats"].get("unjudged", 0)))
-    out = {"evaluations": res["stats"].get("trials", 0) + qd["evaluations"], "distinct_nontrivial": res["distinct_nontrivial"], "samples": res["samples"][:1],
+    # whether the peer is told about a close must not depend on the random draws inside the close (filler length of the
+    # closing frame, padding of a stream's first frames): bulk closes on healthy sessions (driver shared with C13)
+    cb = lib.run_go(ctx, "multiplex", "TestVerifC13CloseBulk", timeout=1200, tag="close_bulk", prefixes=("c13", "shared"))
+    for v in cb.get("violations", []):
+        ctx.violations.append(dict(v, key="eof-missing", what="the end of the stream never reaches the peer: " + v.get("what", "")))
+    if cb.get("_died") or not cb.get("complete", False):
+        raise lib.Inconclusive("bulk close driver died: %s" % cb.get("_stdout_tail"))
+    ctx.log("close bulk: %d closes, %d violations" % (cb["stats"].get("bulk_closes", 0), len(cb.get("violations", []))))
+    out = {"evaluations": res["stats"].get("trials", 0) + qd["evaluations"] + cb["evaluations"], "close_bulk_closes": cb["stats"].get("bulk_closes", 0), "distinct_nontrivial": res["distinct_nontrivial"], "samples": res["samples"][:1],
            "traces": 0, "wake_race_trials": res["stats"].get("trials", 0)}
     if not ctx.quick():
         # the receive pipe under the stream (spec/StreamPipe.tla, extra X01): every short schedule of Read / Write / the
